@@ -21,22 +21,38 @@ Rec == ndJsonDeserialize(IOEnv.TRACE)
 Idx(kind) == {i \in DOMAIN Rec : Rec[i].k = kind}
 
 \* Snapshot!Validate on what the faulted text says: it parses as a package, the version is the
-\* supported one, and the stored checksum is H (SHA-256 of the JSON) of the content it carries
+\* supported one, and the stored checksum is H (SHA-256 of the JSON) of the content it carries.
+\* This uses the pinned checksum recipe and the library's own deserializer: it is the MODEL of the code.
 Valid(e) == e.pkg.parsed /\ e.pkg.ver = 1 /\ e.pkg.sum = e.pkg.hsum
+
+\* What the PROPERTY says must be an error, read off the faulted text by a generic JSON parser: it is
+\* not JSON, or states another version, or its stored checksum or its content (price, stored aggregates,
+\* number / sequence / any field of the orders) is no longer that of the package that was written.
+\* (the two re-encodings the harness constructs as content-preserving - pretty printing, documented
+\*  spelling aliases of enum values - are by construction not alterations)
+MustErr(e) == e.f \notin {"same-pretty", "same-alias"} /\ (~e.j.parsed \/ e.j.ver # 1 \/ ~e.j.sumsame \/ ~e.j.contentsame)
 
 LineOk(e) ==
   IF e.k = "pkg" THEN e.res = "ok" /\ e.same
   ELSE /\ e.res \in {"ok", "err"}
-       /\ (e.res = "ok" <=> Valid(e))                  \* Restore succeeds iff the package is valid
-       /\ (e.res = "ok" => e.same)
-       /\ (e.trunc => e.res = "err")
+       /\ (MustErr(e) => e.res = "err")
+       /\ (e.res = "ok" => e.same)                     \* a restore that succeeds yields the snapshotted content
+       /\ (e.trunc => e.res = "err")                   \* every proper prefix
        /\ (e.f \in {"struct", "structpkg"} => e.res = "err")
-       /\ (e.f \in {"same-pretty", "same-alias"} => e.res = "ok" /\ e.same)
+
+\* conformance to the model of the pinned code (not demanded by C09, which is an "only if"):
+\* restore = ok exactly when Validate holds; content-preserving re-encodings still restore
+LineConf(e) ==
+  e.k = "pkg" \/ /\ (e.res = "ok" <=> Valid(e))
+                 /\ (e.f \in {"same-pretty", "same-alias"} => e.res = "ok" /\ e.same)
 
 Bad == {i \in DOMAIN Rec : ~LineOk(Rec[i])}
+Drifted == {i \in DOMAIN Rec : ~LineConf(Rec[i])}
 Kinds == {Rec[i].f : i \in Idx("f")}
 Summary == [lines |-> Len(Rec), packages |-> Cardinality(Idx("pkg")), faults |-> Cardinality(Idx("f")),
             bad |-> Cardinality(Bad), firstbad |-> IF Bad = {} THEN 0 ELSE Min(Bad),
+            drift |-> Cardinality(Drifted), firstdrift |-> IF Drifted = {} THEN 0 ELSE Min(Drifted),
+            musterr |-> Cardinality({i \in Idx("f") : MustErr(Rec[i])}),
             accepted |-> Cardinality({i \in Idx("f") : Rec[i].res = "ok"}),
             truncations |-> Cardinality({i \in Idx("f") : Rec[i].trunc}),
             kinds |-> Cardinality(Kinds)]
